@@ -1,6 +1,8 @@
-Require Import DS.Base DS.Utf8 DS.Strings DS.Codec DS.Json.
+Require Import DS.Base DS.Utf8 DS.Strings DS.Codec DS.Json DS.CodecProps.
 Require Import ExtrOcamlBasic.
 Extraction Language OCaml.
 Extraction "../ocaml/gen/c17_model.ml" N.of_nat N.to_nat Z.of_N Z.to_N
   b64_encode b64_decode utf8_encode utf8_decode cmd_hex_encode cmd_hex_decode scalar
-  create_structure encode_from_state roundtrip roundtrip_model fuel_for empty_store normalise json_wfb no_handle_leafb.
+  create_structure encode_from_state roundtrip roundtrip_model fuel_for empty_store normalise json_wfb no_handle_leafb
+  cmd_map_to_properties cmd_map_load_properties pp_roundtrip pp_prefix_map representable pair_clean str_nodup
+  w1252_decode_byte w1252_encode_char char_ok utf8_ok wire_bytes pp_write_escaped.
